@@ -177,6 +177,30 @@ fn synthetic_error(rng: &mut Rng, prelen: usize, user: &str) -> hclrs::Error {
     }
 }
 
+/// the single errors of a serialised error value, sorted; a loop report only by its kind (which loop is shown may differ)
+fn canonical_errors(sexp: &str) -> Vec<String> {
+    fn children(s: &str) -> Vec<String> {
+        // s = "(Tag child child ...)": the top-level parenthesised children
+        let mut out = Vec::new();
+        let mut depth = 0i32;
+        let mut start = 0usize;
+        for (i, c) in s.char_indices() {
+            if c == '(' { depth += 1; if depth == 2 { start = i; } }
+            else if c == ')' { if depth == 2 { out.push(s[start..=i].to_string()); } depth -= 1; }
+        }
+        out
+    }
+    fn leaves(s: &str, out: &mut Vec<String>) {
+        if s.starts_with("(MultipleErrors") { for c in children(s) { leaves(&c, out); } }
+        else if s.starts_with("(WireLoop") { out.push(String::from("(WireLoop)")); }
+        else { out.push(s.to_string()); }
+    }
+    let mut out = Vec::new();
+    leaves(sexp, &mut out);
+    out.sort();
+    out
+}
+
 pub fn render(rng: &mut Rng, count: u64, emit: Emit) {
     use hclrs::{parse_y86_hcl, FileContents};
     use std::panic::{catch_unwind, AssertUnwindSafe};
@@ -268,9 +292,25 @@ pub fn render(rng: &mut Rng, count: u64, emit: Emit) {
             }
         };
         let e = match error { Some(e) => e, None => continue };
-        let result = render_against(&e, &contents);
-        emit(format!("(render (how {}) (prelen {}) (user {}) (name {}) (error {}))", how, pre.len(), hex_atom(text.as_bytes()), hex_atom(name.as_bytes()),
-                     hclrs::verif_hooks::error_sexp(&e)), result);
+        let mut result = render_against(&e, &contents);
+        // C12: "a rejected program is rejected on every run, with the same kinds of diagnostics about the same names": the same
+        // text is parsed and built twice more (every hash table gets fresh seeds) and the complete diagnostics - kinds, names,
+        // suggested names, spans - must be the same up to their order (and up to which loop is shown)
+        if !how.starts_with("synthetic") && !how.starts_with("yo") && !how.starts_with("run-divide") {
+            let first = canonical_errors(&hclrs::verif_hooks::error_sexp(&e));
+            for _ in 0..2 {
+                let again = match catch_unwind(AssertUnwindSafe(|| parse_y86_hcl(&contents))) {
+                    Ok(Err(e2)) => canonical_errors(&hclrs::verif_hooks::error_sexp(&e2)),
+                    Ok(Ok(_)) => vec![String::from("ACCEPTED")],
+                    Err(_) => vec![String::from("PANIC")],
+                };
+                if again != first { result = String::from("UNSTABLE"); }
+            }
+        }
+        // the strictness switches and the case of the non-ASCII characters: what the model of `Program::new` with spans
+        // (`Program.newSp`) needs besides the text to recompute the diagnostics and their spans
+        emit(format!("(render (how {}) (prelen {}) (user {}) (name {}) (error {}) {} {})", how, pre.len(), hex_atom(text.as_bytes()), hex_atom(name.as_bytes()),
+                     hclrs::verif_hooks::error_sexp(&e), crate::progrun::flags_sexp(), crate::progrun::cls_sexp(&text)), result);
         emitted += 1;
     }
 }
